@@ -64,11 +64,12 @@ const (
 	SecOptFn           // H.OptV(r, ofn(r))                        a function value only some requests inject
 	SecForCall         // for fj = 0; fj < 2; fj += 1 { H.F(r,p) }    a failing call inside the body of a for loop
 	SecStrayBreak      // H.B(r,p); break                             a break outside any loop (always fails)
+	SecThreeArith      // H.Id(r, Req.In.Rid() + 0)                arithmetic whose only non-literal operand is a three-level call on request data
 	SecOptName         // H.OptSet(r); ov = r+300                  a plain name that some calls inject (then it is shared) and others do not (then it is a local)
 	numSecKinds
 )
 
-var secNames = [...]string{"Y", "Call", "AsgCall", "AsgKind", "Div", "Idx", "Nil", "Unknown", "Arg", "IfKind", "IfIdx", "IfNil", "Elif", "ForKind", "ForStep", "Unb", "UnbCont", "Conc", "Local", "Reader", "Stop", "ShW", "ShR", "Upd", "Echo", "Opt", "IfCall", "ForRange", "MapIdx", "SetKind", "SetNil", "RangeKey", "ThreeNil", "IfThreeNil", "ArgCount", "NilMapSet", "FuncCall", "IfFunc", "ThreeSet", "LocObj", "LocObjReader", "LocAlias", "FnArgKind", "FnArgCount", "LocStruct", "ElifCall", "ForAcc", "ApiSet", "RangeGrow", "ThreeSetLoc", "OptFn", "ForCall", "StrayBreak", "OptName"}
+var secNames = [...]string{"Y", "Call", "AsgCall", "AsgKind", "Div", "Idx", "Nil", "Unknown", "Arg", "IfKind", "IfIdx", "IfNil", "Elif", "ForKind", "ForStep", "Unb", "UnbCont", "Conc", "Local", "Reader", "Stop", "ShW", "ShR", "Upd", "Echo", "Opt", "IfCall", "ForRange", "MapIdx", "SetKind", "SetNil", "RangeKey", "ThreeNil", "IfThreeNil", "ArgCount", "NilMapSet", "FuncCall", "IfFunc", "ThreeSet", "LocObj", "LocObjReader", "LocAlias", "FnArgKind", "FnArgCount", "LocStruct", "ElifCall", "ForAcc", "ApiSet", "RangeGrow", "ThreeSetLoc", "OptFn", "ForCall", "StrayBreak", "ThreeArith", "OptName"}
 
 // FaultCapable reports whether a section hosts a fault point.
 func FaultCapable(k int) bool {
@@ -102,6 +103,7 @@ const (
 	RetElseIf   // if VF<r> { H.Y } else if H.Ret(r) { return V }            return from an else-if branch
 	RetBreak    // for ... { if w == 1 { break } } if H.Ret(r) { return V }  a loop left by break before the return
 	RetContinue // for ... { if w == 0 { continue } if H.Ret(r) { return V } }  return in the iteration after a continue
+	RetTopLoop  // forRange k := RS<r> { return V }  (after H.E)                a loop body that is nothing but a return
 	numRetKinds
 )
 
@@ -434,6 +436,8 @@ func (r *RuleDef) Render() string {
 		case SecRangeGrow:
 			fmt.Fprintf(&b, "gs%d = H.NewGrow(%d)\nforRange gk%d := gs%d.Items {\ngs%d.Push()\nH.Y(%d,%d)\n}\n", p, id, p, p, p, id, yk)
 			yk++
+		case SecThreeArith:
+			fmt.Fprintf(&b, "H.Id(%d, Req.In.Rid() + 0)\n", id)
 		case SecForCall:
 			fmt.Fprintf(&b, "for fj%d = 0; fj%d < 2; fj%d += 1 {\nH.F(%d,%d)\n}\n", p, p, p, id, p)
 		case SecStrayBreak:
@@ -496,6 +500,8 @@ func (r *RuleDef) Render() string {
 	switch r.Ret {
 	case RetTop:
 		fmt.Fprintf(&b, "return %d\n", r.RetVal())
+	case RetTopLoop:
+		fmt.Fprintf(&b, "forRange kt%d := RS%d {\nreturn %d\n}\n", id, id, r.RetVal())
 	case RetTopB:
 		b.WriteString("return\n")
 	case RetTopKind:
